@@ -46,10 +46,19 @@ try:
         rows.append((sid, prop, res))
 finally:
     subprocess.run(['git', '-C', '/repo', 'worktree', 'remove', '--force', SCR], capture_output=True)
-with open(os.path.join(ROOT, 'seeded', 'MATRIX.md'), 'w') as fh:
+mpath = os.path.join(ROOT, 'seeded', 'MATRIX.md')
+if opt('--seeds') and os.path.exists(mpath):
+    # partial run: keep the rows of the seeds that were not re-measured
+    done = set(r[0] for r in rows)
+    for line in open(mpath):
+        m = re.match(r'\| (\S+) \| (C\d+) \| (.*) \|$', line.strip())
+        if m and m.group(1) not in done and m.group(1) != 'seed':
+            rows.append((m.group(1), m.group(2), {'': m.group(3)}))
+    rows.sort(key=lambda r: r[0])
+with open(mpath, 'w') as fh:
     fh.write('# Seeded changes x checks (quick tier), against /repo HEAD %s\n\n' % subprocess.run(['git', '-C', '/repo', 'rev-parse', '--short', 'HEAD'], capture_output=True, text=True).stdout.strip())
     fh.write('Produced by tools/seed_matrix.py: each patch is applied to a scratch worktree of /repo (never to /repo), the listed quick checks are run with VERIF_REPO pointing at it.\n\n')
     fh.write('| seed | breaks | result |\n|---|---|---|\n')
     for sid, prop, res in rows:
-        fh.write('| %s | %s | %s |\n' % (sid, prop, '; '.join('%s: %s' % kv for kv in sorted(res.items()))))
+        fh.write('| %s | %s | %s |\n' % (sid, prop, '; '.join(('%s: %s' % kv) if kv[0] else kv[1] for kv in sorted(res.items()))))
 print('written seeded/MATRIX.md')
